@@ -239,6 +239,12 @@ def search(ctx, budget):
             pts = rand_curve(rng) if i % 6 else oc.rand_seg_pts(rng, 2, "int")
             L = oc.mkseg(pts).length
             inp = {"pts": pts, "d": pick_d(rng, L)}
+            if i % 12 == 4 and L > 0:
+                # a curve a fraction of a unit to a few units long, flattened with a step that is a fraction of its length (F33)
+                k = rng.choice([64.0, 128.0, 32.0])
+                pts = [(x / k, y / k) for x, y in pts]
+                L = oc.mkseg(pts).length
+                inp = {"pts": pts, "d": L / rng.choice([3, 5, 9])}
             kind = "seg"
         msg = run_one(kind, inp)
         if msg == "skip":
